@@ -91,8 +91,9 @@ func (b *memBackend) Start(ctx context.Context, wg *sync.WaitGroup) (chan netcep
 }
 
 type qmsg struct {
-	data  []byte
-	batch int
+	data    []byte
+	batch   int
+	counted bool
 }
 
 // hSess is one end of a harness-owned link; it SENDS in direction from>to.
